@@ -702,6 +702,54 @@ def gen_hidden_rec(rng, T, nts):
     return [[nt, _dedupe(g[nt])] for nt in nts]
 
 
+def gen_dfs_shapes(rng, T, nts):
+    """shapes that exercise the bookkeeping of the recursion DFS: alternatives of one symbol S that start with
+    0-2 nullable non-terminals followed by a not nullable non-terminal (visited for the first time inside the
+    DFS of S when it sorts after S), S itself, or a terminal - in every order, so that the alternative examined
+    after a pop starts with / carries S at every small index; plus middle recursion `t S t`."""
+    if len(nts) < 3:
+        return gen_hidden_rec(rng, T, nts)
+    roles = list(nts[1:])
+    rng.shuffle(roles)
+    S = nts[0] if rng.random() < 0.6 else roles.pop()
+    k = rng.randint(1, max(1, len(roles) - 1))
+    nullables, nonnull = roles[:k], roles[k:]
+    g = {nt: [] for nt in nts}
+    alts = []
+    for _ in range(rng.randint(2, 4)):
+        pre = [rng.choice(nullables) for _ in range(rng.randint(0, 2))]
+        kind = rng.choice(["nn", "nn", "self", "self", "term"])
+        if kind == "nn" and nonnull:
+            mid = [rng.choice(nonnull)]
+        elif kind == "self":
+            mid = [S]
+        else:
+            mid = [rng.choice(T)]
+        alts.append(pre + mid + [rng.choice(T + nts) for _ in range(rng.randint(0, 2))])
+    if rng.random() < 0.5:
+        alts.insert(rng.randint(0, len(alts)), [rng.choice(T), S, rng.choice(T)])
+    if rng.random() < 0.3:
+        alts.insert(rng.randint(0, len(alts)), [rng.choice(nullables), rng.choice(T), S])
+    alts.append([rng.choice(T)])
+    g[S] = alts
+    for N in nullables:
+        a = [[], [rng.choice(T)] + ([rng.choice(T)] if rng.random() < 0.3 else [])]
+        if rng.random() < 0.2 and len(nullables) > 1:
+            a.append([rng.choice([x for x in nullables if x != N])])
+        rng.shuffle(a)
+        g[N] = a
+    for B in nonnull:
+        a = [[rng.choice(T)] + ([rng.choice([S] + nonnull + T)] if rng.random() < 0.4 else [])]
+        if rng.random() < 0.4:
+            a.append([rng.choice(T), rng.choice(T)])
+        if rng.random() < 0.15:
+            a.append([rng.choice(nullables), rng.choice(T)])
+        g[B] = a
+    if S != nts[0]:
+        g[nts[0]] = [[S] + ([rng.choice(T)] if rng.random() < 0.5 else []), [rng.choice(T), S]]
+    return [[nt, _dedupe(g[nt])] for nt in nts]
+
+
 def gen_malformed(rng, T, nts):
     g = gen_nonleftrec(rng, T, nts)
     kind = rng.choice(["unknown-symbol", "no-start", "nt-is-terminal", "dunder", "duplicate-alt", "end-used",
@@ -780,7 +828,7 @@ def make_case(spec, var_name, words, texts, meta, diags=("prods", "suffix", "tab
     return {"lines": lines, "meta": m, "lexmap": dict(VARIANTS[var_name]["lex"] if lexmap is None else lexmap)}
 
 
-def gen_spec(rng, malformed_share=0.05, hidden_share=0.04, ll1_share=0.2):
+def gen_spec(rng, malformed_share=0.05, hidden_share=0.04, ll1_share=0.2, dfs_share=0.03):
     """-> (spec, variant name, meta)"""
     var_name = rng.choice(["plain"] * 4 + ["syn", "kw", "synkw", "noskip", "swap"])
     var = VARIANTS[var_name]
@@ -796,6 +844,10 @@ def gen_spec(rng, malformed_share=0.05, hidden_share=0.04, ll1_share=0.2):
         gen = "malformed"
     elif r < malformed_share + hidden_share:
         g, gen = gen_hidden_rec(rng, T, nts), "hiddenrec"
+    elif r < malformed_share + hidden_share + dfs_share:
+        if len(nts) < 3:
+            nts = pool[:rng.choice([3, 4, 5])]
+        g, gen = gen_dfs_shapes(rng, T, nts), "dfsshapes"
     elif r > 1.0 - ll1_share:
         g, gen = gen_ll1ish(rng, T, nts), "ll1ish"
     else:
@@ -819,9 +871,9 @@ def gen_spec(rng, malformed_share=0.05, hidden_share=0.04, ll1_share=0.2):
 
 def gen_ll_cases(rng, n_grammars, maxlen, extra_long=0, rec_maxlen=2, malformed_share=0.05, sentences=25,
                  hidden_share=0.04, diags=("prods", "suffix", "table", "nullables", "first", "follow"), ll1_share=0.2,
-                 sent_maxlen=7):
+                 sent_maxlen=7, dfs_share=0.03):
     for _ in range(n_grammars):
-        spec, var_name, meta = gen_spec(rng, malformed_share, hidden_share, ll1_share)
+        spec, var_name, meta = gen_spec(rng, malformed_share, hidden_share, ll1_share, dfs_share)
         var = VARIANTS[var_name]
         ok = clean(spec)
         rec = ok and left_rec(user_grammar(spec))
